@@ -45,6 +45,11 @@ CHECKS = {
          "The complete internal state of the real OptDensMinHash / RevOptDensMinHash (hook H3) is explored to a fixed point for m<=7 (quick) / 9 (thorough) under sketch(witness item per bin), end_sketch, sketch_slice (4 chunks incl. the empty one) and reinit; each transition replays the shortest history on a fresh real instance. On every finishing edge: populated bins bit-identical, every other bin holds the (value,hash) pair of a populated bin, nb_empty=0, all positions hold hashes of streamed items, u32 view = murmur3(127) of the u64 view, equal u64 entries imply equal float/u32 entries, a second end_sketch is a no-op, sketch_slice = item-wise + end_sketch, reinit = initial state. Every non-empty occupancy pattern is additionally enumerated directly up to m=10 (13). Finishing an empty stream (fresh or after reinit; end_sketch and sketch_slice(&[])) runs in sub-processes with a 5 s horizon: not returning is the violation. A watchdog turns any in-process finishing call that exceeds 20 s into a violation.",
          "hook H3 exposes the whole mutable state; densification reads only the occupancy pattern",
          "DESIGN.md §4 C09"),
+ "C07": ("exploration",
+         "exhaustive enumeration of collision fractions k/m and of a cardinality grid; exhaustive labelling of identifier blocks against a closed-form collision model",
+         "Totality: for 8 bases b in (1,2] every fraction k/m with m<=2048 (quick) / 12000 (thorough), bands next to 0 and 1 for m up to 2^32 and 12288 neighbouring floats are passed to the real get_jaccard_bounds (1.7e7 calls quick): it must return with lo<=hi+1e-9. Bracket: all 11^3 cardinality triples x 7 bases admissible under the clip precondition: collision probability from the closed-form model, real bounds must contain J within 1e-4. Collisions: 108 configurations (3 bases x m in {1,64,4096} x 8-12 set shapes incl. nested/disjoint/identical/1-vs-1e4 (1e6 thorough), u16/u32, plus partially clipping parameter sets); every labelling t of a seeded identifier block is sketched with the real sketcher and the mean collision fraction must lie within 6 standard errors of the model, confirmed on a 4x larger disjoint block before a violation is reported.",
+         "collision part decides the enumerated block only (finite-population statement, resolution ~3/sqrt(register pairs)); the collision model is the stated reference",
+         "DESIGN.md §4 C07"),
 }
 PENDING_REASON = "check not built yet in this revision (see DESIGN.md §4 for the planned model-checking approach)"
 
